@@ -25,8 +25,8 @@ from sim.ref.prog import run_reference, qindex
 from sim.seam import OutcomeScript, OwnedRNG
 
 ID = "C01"
-RUNS = {"quick": 5000, "thorough": 150000}
-BUDGET = {"quick": 75, "thorough": 1500}
+RUNS = {"quick": 12000, "thorough": 150000}
+BUDGET = {"quick": 90, "thorough": 1500}
 CHUNK = {"quick": 40, "thorough": 200}
 RULE = (
     "program = seeded circuit of 1-40 operations over {I,H,P,Pdag,X,Y,Z, wrappers of 1-4 gates, CNOT, CZ, "
